@@ -583,6 +583,10 @@ def step_thresholds(ctx, prog):
 SAFE_PLUMBING = (
     r"^STORE local:i = ", r"^BR Ge\(local:i,param:self\.0\.bhidx_end\)$", r"^CALL .*IndexMut<I> for \[T; N\]>::index_mut\(param:self\.0\.bh_context,",
     r"^CALL .*IntoIterator for &'a mut \[T\]>::into_iter\(", r"^STORE local:iter = core::slice::iter::", r"^CALL <core::slice::IterMut<'a, T> as core::iter::Iterator>::next\(local:iter\)$",
+    # the same walk spelled `arr[a..b].iter_mut()`
+    r"^CALL core::slice::<impl \[T\]>::iter_mut\(core::array::<impl core::ops::IndexMut<I> for \[T; N\]>::index_mut\(param:self\.0\.bh_context,",
+    r"^STORE local:iter = <I as core::iter::IntoIterator>::into_iter\(core::slice::<impl \[T\]>::iter_mut\(core::array::<impl core::ops::IndexMut<I> for \[T; N\]>::index_mut\(param:self\.0\.bh_context,",
+    r"^CALL <I as core::iter::IntoIterator>::into_iter\(core::slice::<impl \[T\]>::iter_mut\(core::array::<impl core::ops::IndexMut<I> for \[T; N\]>::index_mut\(param:self\.0\.bh_context,",
     r"^BR discr\(<core::slice::IterMut<'a, T> as core::iter::Iterator>::next\(local:iter\)\)$", r"^STORE local:bh1 = ", r"^STORE local:bh_curr_reused = ",
 )
 UNSAFE_PLUMBING = (
